@@ -317,6 +317,10 @@ class ObjectHistories(Family):
         for order in itertools.permutations(range(3)):
             for comp in (True, False):
                 yield ('pubkeys_alive', list(order), comp)
+        for comp in (True, False):
+            for ln in (1, 2, 3):
+                for seq in itertools.product(range(8), repeat=ln):
+                    yield ('one_key_many_signatures', list(seq), comp)
         for seq in itertools.product((True, False), repeat=3):
             for si in range(3):
                 yield ('compression_sequence', list(seq), si)
@@ -341,6 +345,37 @@ class ObjectHistories(Family):
                 if not pubs[i].is_fullyvalid or bytes(pubs[i]) != EC.pubkey(secs[i], b):
                     raise Viol('public-key object %d changed' % i, None, None)
             return kind, True
+        if kind == 'one_key_many_signatures':
+            # ONE public-key object verifies a sequence of signatures of different encoded lengths (valid and invalid), in
+            # every order: each answer is the reference verdict for that signature alone
+            sec = K.SECRETS[7]
+            pt = EC.mul(sec)
+            pub = self.__dict__.get('_onepub', {}).get(b)
+            items = self.__dict__.get('_items')
+            if items is None:
+                sp = K.special_r_nonces()
+                h2 = DIGESTS[3]
+                items = []
+                for hh, k in ((h, 777), (h, sp['r31']), (h, sp['rhigh']), (h2, K.nonce_with(sec, h2, want_s31=True)), (h2, 778)):
+                    r, s_ = EC.low_s(*EC.sign_with_nonce(sec, hh, k))
+                    items.append((hh, EC.der_encode(r, s_)))
+                r, s_ = EC.low_s(*EC.sign_with_nonce(sec, h, 779))
+                items.append((h2, EC.der_encode(r, s_)))                       # valid for another digest
+                items.append((h, EC.der_encode(r, N - s_)))                     # high-S twin
+                r, s_ = EC.low_s(*EC.sign_with_nonce(K.SECRETS[8], h, 780))
+                items.append((h, EC.der_encode(r, s_)))                        # by another key
+                self._items = items
+            pub = CPubKey(EC.pubkey(sec, b))
+            lens = []
+            for i in a:
+                hh, sig = items[i]
+                rs = EC.der_parse_strict(sig)
+                want = EC.verify(pt, hh, rs[0], rs[1])
+                got = pub.verify(hh, sig)
+                lens.append(len(sig))
+                if bool(got) != want:
+                    raise Viol('one public-key object, signature sequence %r (encoded lengths %r): verdict for signature #%d' % (a, lens, i), want, got)
+            return kind, len(set(lens)) > 1
         if kind == 'compression_sequence':
             sec = K.SECRETS[b]
             k = CECKey()
